@@ -273,11 +273,13 @@ def verify_one(key):
         obls = list(ex.obls)
         for i, (rs, rv, line) in enumerate(ex.returns):
             if cx._ensures is not None:
-                g = cx._ensures(rs, rv)
+                try: g = cx._ensures(rs, rv)
+                except KeyError as ke: raise OutOfReach(f'the postcondition refers to the local {ke} which the source no longer has')
                 if isinstance(g, (list, tuple)): g = z3.And(*g)
                 obls.append(Obligation(f'return{i}.ensures', rs.pc, g, 'ensures', line))
         for i, (rs, rv, line) in enumerate(ex.raises):
-            g = cx._raises(rs, rv) if cx._raises is not None else z3.BoolVal(False)
+            try: g = cx._raises(rs, rv) if cx._raises is not None else z3.BoolVal(False)
+            except KeyError as ke: raise OutOfReach(f'the exceptional postcondition refers to the local {ke} which the source no longer has')
             obls.append(Obligation(f'raise{i}.allowed', rs.pc, g, 'raises', line))
         axioms = ex.axioms + mem_axioms()
         rec['trusted'] = sorted(set(cx.trusted) | {f'callee contract: {n}' for n in ex.trusted})
@@ -368,6 +370,15 @@ def verify_many(keys, procs=16, budget=None):
     from vcheck import pool as vpool
     budget = budget or int(os.environ.get('PYVC_CONTRACT_BUDGET_S', '400'))
     res = vpool.run_items(_worker_item, list(keys), budget=budget, procs=procs)
+    # a contract whose process died (the solver exhausted the address space while searching for a counter-model) is verified once more, alone, with
+    # a small solver memory cap: the solver then gives up on the offending obligation ('unknown') instead of taking the process down
+    died = [i for i, r in enumerate(res) if 'name' not in r and 'died' in str(r.get('why'))]
+    if died:
+        res2 = vpool.run_items(_worker_item_lowmem, [keys[i] for i in died], budget=budget, procs=max(1, min(4, procs)))
+        for i, r in zip(died, res2):
+            if 'name' in r:
+                r.setdefault('notes', []); r['notes'] = list(r['notes']) + ['first attempt: verification process died; re-verified with a 600 MB solver cap']
+                res[i] = r
     out = []
     for k, r in zip(keys, res):
         if 'name' in r: out.append(r); continue
@@ -378,6 +389,11 @@ def verify_many(keys, procs=16, budget=None):
 
 
 def _worker_item(key):
+    return _worker(key)
+
+
+def _worker_item_lowmem(key):
+    z3.set_param('memory_max_size', 600)
     return _worker(key)
 
 
